@@ -422,6 +422,82 @@ def keyed_sorts(trees: typing.Dict[str, ast.Module]) -> typing.List[typing.Tuple
     return out
 
 
+# -- order of user-supplied paths; writes that depend on the output directory ----------------------------------------------
+def _derives_from_user_paths(expr: ast.AST, fn: ast.AST) -> bool:
+    """the expression mentions the parsed command line / the environment, or a local name assigned from such an expression"""
+    tainted: typing.Set[str] = set()
+    changed = True
+
+    def direct(e: ast.AST) -> bool:
+        src = ast.unparse(e)
+        if re.search(r'\b(self\._args|args)\.\w+|os\.environ|_from_env\b|sys\.argv', src):
+            return True
+        return any(isinstance(n, ast.Name) and n.id in tainted for n in ast.walk(e))
+    while changed:
+        changed = False
+        for n in ast.walk(fn):
+            if isinstance(n, ast.Assign) and len(n.targets) == 1 and isinstance(n.targets[0], ast.Name) and n.targets[0].id not in tainted:
+                if direct(n.value):
+                    tainted.add(n.targets[0].id)
+                    changed = True
+    return direct(expr)
+
+
+PATH_SORT_MAP = {('cli/__init__.py', 'main', 'extra_includes_from_env'): 'PsEnvLookupDirs'}
+
+
+def path_sorts(trees: typing.Dict[str, ast.Module]) -> typing.List[typing.Tuple[str, str]]:
+    out = []
+    for rel, tree in trees.items():
+        for fn in [n for n in ast.walk(tree) if isinstance(n, ast.FunctionDef)]:
+            inner = [g for g in ast.walk(fn) if isinstance(g, ast.FunctionDef) and g is not fn]
+            for node in ast.walk(fn):
+                if not isinstance(node, ast.Call) or any(any(x is node for x in ast.walk(g)) for g in inner):
+                    continue
+                arg = None
+                if isinstance(node.func, ast.Name) and node.func.id in ('sorted', 'set', 'frozenset', 'reversed') and node.args:
+                    arg = node.args[0]
+                elif isinstance(node.func, ast.Attribute) and node.func.attr in ('sort', 'reverse') and not node.args:
+                    arg = node.func.value
+                if arg is None or not _derives_from_user_paths(arg, fn):
+                    continue
+                key = (rel, fn.name, ast.unparse(arg))
+                out.append((PATH_SORT_MAP.get(key, 'PsUnknown'), '%s %s line %d: %s' % (rel, fn.name, node.lineno, ast.unparse(node)[:60])))
+    return out
+
+
+def fact_config_cmdline_order(psorts: typing.List[typing.Tuple[str, str]]) -> bool:
+    """_create_language_context passes args.configuration (as is, or wrapped in a one-element list) to add_config_files, and
+    add_config_files loads its arguments in a plain for loop"""
+    f = find_def(parse('cli/runners.py'), 'ArgparseRunner', '_create_language_context')
+    if any('_create_language_context' in d for _, d in psorts):
+        return False
+    vals = [ast.unparse(n.value) for n in ast.walk(f) if isinstance(n, ast.Assign) and ast.unparse(n.targets[0]) == 'additional_config_files']
+    if not vals or not set(vals) <= {'[]', '[self._args.configuration]', 'self._args.configuration', 'list(self._args.configuration)'}:
+        return False
+    calls = [n for n in ast.walk(f) if isinstance(n, ast.Call) and isinstance(n.func, ast.Attribute) and n.func.attr == 'add_config_files']
+    if len(calls) != 1 or ast.unparse(calls[0].args[0]) != '*additional_config_files':
+        return False
+    g = find_def(parse('lang/__init__.py'), 'LanguageContextBuilder', 'add_config_files')
+    loops = [n for n in ast.walk(g) if isinstance(n, ast.For)]
+    return len(loops) == 1 and ast.unparse(loops[0].iter) == 'additional_config_files' and \
+        not any(isinstance(n, ast.Call) and isinstance(n.func, ast.Name) and n.func.id in ('sorted', 'set', 'reversed') for n in ast.walk(g))
+
+
+def fact_outputs_always_written() -> bool:
+    jj = parse('jinja/__init__.py')
+    probes = {'exists', 'stat', 'lstat', 'is_file', 'is_dir', 'getmtime', 'getctime', 'getsize', 'samefile', 'access', 'isfile', 'listdir', 'iterdir', 'glob'}
+    for names in (('SupportGenerator', 'generate_all'), ('SupportGenerator', '_generate_header'), ('SupportGenerator', '_copy_header'),
+                  ('DSDLCodeGenerator', 'generate_all'), ('DSDLCodeGenerator', '_generate_type'), ('CodeGenerator', '_generate_code')):
+        f = find_def(jj, *names)
+        for n in ast.walk(f):
+            if isinstance(n, ast.Continue):
+                return False
+            if isinstance(n, ast.Call) and isinstance(n.func, ast.Attribute) and n.func.attr in probes:
+                return False
+    return True
+
+
 def fact_gzip_mtime_fixed() -> bool:
     f = find_def(parse('lang/py/__init__.py'), 'filter_pickle')
     calls = [n for n in ast.walk(f) if isinstance(n, ast.Call) and ast.unparse(n.func) in ('gzip.compress', 'gzip.GzipFile', 'gzip.open')]
@@ -754,6 +830,9 @@ def build() -> typing.Tuple[str, dict]:
         'sf_gzip_mtime_fixed': fact_gzip_mtime_fixed(),
         'sf_template_sets_pure': fact_template_sets_pure(),
     }
+    psorts = path_sorts(trees)
+    facts['sf_config_cmdline_order'] = fact_config_cmdline_order(psorts)
+    facts['sf_outputs_always_written'] = fact_outputs_always_written()
     sorts = keyed_sorts(trees)
     nat = [t for s_, t, _ in sorts if s_ == 'SortHtmlNatural']
     facts['sf_natsort_total'] = bool(nat) and all(nat)
@@ -779,6 +858,9 @@ def build() -> typing.Tuple[str, dict]:
     lines.append('].\n')
     lines.append('Definition gen_sorts : list (sort_site * bool) := [')
     lines.append(';\n'.join('  (%s, %s)  (* %s *)' % (a, coq_bool(b), d) for a, b, d in sorts))
+    lines.append('].\n')
+    lines.append('Definition gen_path_sorts : list path_sort_site := [')
+    lines.append(';\n'.join('  %s  (* %s *)' % (a, d) for a, d in psorts))
     lines.append('].\n')
     lines.append('Definition gen_ambient_reads : list (read_kind * read_site) := [')
     lines.append(';\n'.join('  (%s, %s)  (* %s *)' % (k, s, d) for k, s, d in reads))
